@@ -114,7 +114,8 @@ Inductive ekind :=
 | EWaitTimedOut
 | ERunExpired
 | EDialEnded
-| EFailure (c : fail_code).
+| EFailure (c : fail_code)
+| EDialWait.                      (* dial_wait: a dial wait began (voice flows) *)
 
 Definition stepref := (nat * nat)%type.          (* run index, position in its path *)
 Record event := { ev_step : option stepref; ev_kind : ekind }.
@@ -506,7 +507,9 @@ Definition visit_node (a : assets) (x : st) (ri : nat) (n : node) (with_trigger 
                     if is_msg_trigger (s_trigger s) && Nat.eqb (length (s_runs s)) 1 && Nat.eqb path_len 1
                     then None
                     else Some (log_event x ri sr (EMsgWait (option_map fst tmo)))
-                | Some {| w_type := WDial |} => None     (* dial waits are outside CFL: flows are not voice *)
+                | Some {| w_type := WDial |} =>
+                    (* DialWait.Begin: the phone number is a literal that parses, so the wait always begins *)
+                    Some (log_event x ri sr EDialWait)
                 end in
               match begin_wait with
               | Some x =>
@@ -708,7 +711,7 @@ Fixpoint waiting_run_from (i : nat) (rs : list run) : option nat :=
   end.
 Definition waiting_run (s : session) : option nat := waiting_run_from 0 (s_runs s).
 
-Definition is_wait_event (k : ekind) : bool := match k with EMsgWait _ => true | _ => false end.
+Definition is_wait_event (k : ekind) : bool := match k with EMsgWait _ | EDialWait => true | _ => false end.
 
 (* countWaits: events of all runs whose type ends in "_wait" *)
 Definition count_waits (s : session) : nat :=
